@@ -356,8 +356,9 @@ def run(ck, n_hints: int, seed: int, focus: str, depth: int = 3, exhaustive_dept
                     om = obj_model(x, reg)
                 except Exception:
                     continue
-                for cn in ('default', 'nonrandom'):
-                    cases.append((cn != 'nonrandom', DRAWS if cn == 'default' else DRAWS[:2], hm, om))
+                # (the generated check inspects ONE item per level under every strategy: `On` samples like the default)
+                for cn in ('default', 'nonrandom') + (('On',) if j == 1 else ()):
+                    cases.append((cn != 'nonrandom', DRAWS if cn == 'default' else DRAWS[:3] if cn == 'On' else DRAWS[:2], hm, om))
                     meta.append((h, x, cn))
     res = corr.model_run(cases, reg)
     seen_shapes = set()
